@@ -96,12 +96,273 @@ def option_tables(repo, unparsed):
     return key_opts, sorted(read_opts), found_key, key_defs, sorted(read_defs)
 
 
+
+# --------------------------------------------------------------------------- do_damped_sin / polynomial-part loop
+
+DS_FIELDS = ['rn0', 'rn1', 'rn2', 'rd0', 'rd1', 'rd2', 'n0', 'n1', 'n2', 'd0', 'd1', 'd2', 'sq1', 'sq2', 'E', 'S', 'C', 'Dl']
+
+
+class Untranslatable(Exception):
+    pass
+
+
+class DSExpr:
+    """Python arithmetic expression (ast) -> Lean term over a generic field, names resolved through an environment of
+    let-bound names; `ncoeffs[i]` / `dcoeffs[i]` -> fields of the input record (raw before the normalising
+    list comprehension has been seen, normalised afterwards); the k-th `sym.sqrt(...)` -> field `sq<k>` (its argument
+    is recorded); `.simplify()` -> identity."""
+
+    def __init__(self):
+        self.bound = []          # names assigned so far (become Lean `let`s)
+        self.norm = {'ncoeffs': False, 'dcoeffs': False}
+        self.sqrt_args = []
+
+    def tr(self, e):
+        if isinstance(e, ast.BinOp):
+            a, b = self.tr(e.left), self.tr(e.right) if not isinstance(e.op, ast.Pow) else None
+            if isinstance(e.op, ast.Add):
+                return '(%s + %s)' % (a, b)
+            if isinstance(e.op, ast.Sub):
+                return '(%s - %s)' % (a, b)
+            if isinstance(e.op, ast.Mult):
+                return '(%s * %s)' % (a, b)
+            if isinstance(e.op, ast.Div):
+                return '(%s / %s)' % (a, b)
+            if isinstance(e.op, ast.Pow) and isinstance(e.right, ast.Constant) and isinstance(e.right.value, int) and e.right.value >= 0:
+                return '(pw %s %d)' % (a, e.right.value)
+            raise Untranslatable(ast.unparse(e))
+        if isinstance(e, ast.UnaryOp) and isinstance(e.op, ast.USub):
+            return '(-%s)' % self.tr(e.operand)
+        if isinstance(e, ast.Constant) and isinstance(e.value, int) and e.value >= 0:
+            return '(ofN %d)' % e.value
+        if isinstance(e, ast.Name):
+            if e.id in ('Zero',):
+                return '(0 : K)'
+            if e.id in ('One',):
+                return '(1 : K)'
+            if e.id in self.bound:
+                return e.id + '_'
+            raise Untranslatable('free name ' + e.id)
+        if (isinstance(e, ast.Subscript) and isinstance(e.value, ast.Name) and e.value.id in ('ncoeffs', 'dcoeffs')
+                and isinstance(e.slice, ast.Constant) and e.slice.value in (0, 1, 2)):
+            pre = ('n' if e.value.id == 'ncoeffs' else 'd')
+            if not self.norm[e.value.id]:
+                pre = 'r' + pre
+            return 'x.%s%d' % (pre, e.slice.value)
+        if isinstance(e, ast.Call):
+            f = e.func
+            # (expr).simplify()
+            if isinstance(f, ast.Attribute) and f.attr == 'simplify' and not e.args:
+                return self.tr(f.value)
+            if isinstance(f, ast.Attribute) and isinstance(f.value, ast.Name) and f.value.id == 'sym':
+                if f.attr == 'sqrt' and len(e.args) == 1:
+                    self.sqrt_args.append(self.tr(e.args[0]))
+                    if len(self.sqrt_args) > 2:
+                        raise Untranslatable('more than two square roots')
+                    return 'x.sq%d' % len(self.sqrt_args)
+                if f.attr == 'DiracDelta' and len(e.args) == 1 and isinstance(e.args[0], ast.Name) and e.args[0].id == 't':
+                    return 'x.Dl'
+        raise Untranslatable(ast.unparse(e))
+
+
+def _times_t(e):
+    """`X * t` -> X"""
+    if isinstance(e, ast.BinOp) and isinstance(e.op, ast.Mult) and isinstance(e.right, ast.Name) and e.right.id == 't':
+        return e.left
+    raise Untranslatable(ast.unparse(e))
+
+
+def damped_sin_defs(cls, unparsed):
+    """Lean definitions mirroring the straight-line arithmetic of `do_damped_sin` (list of lines), info dict"""
+    fdef = None
+    for f in cls.body:
+        if isinstance(f, ast.FunctionDef) and f.name == 'do_damped_sin':
+            fdef = f
+    lines = []
+    info = {'translated': False, 'returns': 0}
+    lets = []              # [(name, lean expr)]
+    outs = {}              # lean def name -> (let-prefix length, expr)
+    dx = DSExpr()
+    try:
+        if fdef is None:
+            raise Untranslatable('do_damped_sin not found')
+
+        def snapshot(name, expr):
+            outs[name] = (len(lets), expr)
+
+        def do_return(tag, node):
+            v = node.value
+            if not (isinstance(v, ast.Tuple) and len(v.elts) == 2):
+                raise Untranslatable('return ' + ast.unparse(node))
+            snapshot('dsRet%sc' % tag, dx.tr(v.elts[0]))
+            snapshot('dsRet%su' % tag, dx.tr(v.elts[1]))
+            info['returns'] += 1
+
+        for st in fdef.body:
+            if isinstance(st, ast.Assign) and len(st.targets) == 1:
+                tg, val = st.targets[0], st.value
+                if isinstance(tg, ast.Tuple):
+                    # ncoeffs, dcoeffs = expr.coeffs()
+                    if [getattr(x, 'id', None) for x in tg.elts] == ['ncoeffs', 'dcoeffs'] and ast.unparse(val) == 'expr.coeffs()':
+                        continue
+                    raise Untranslatable(ast.unparse(st))
+                name = tg.id
+                if name in ('ncoeffs', 'dcoeffs'):
+                    if ast.unparse(val) == '[c / %s[0] for c in %s]' % (name, name):
+                        dx.norm[name] = True
+                        continue
+                    raise Untranslatable(ast.unparse(st))
+                if isinstance(val, ast.Call) and isinstance(val.func, ast.Attribute) and isinstance(val.func.value, ast.Name) \
+                        and val.func.value.id == 'sym' and val.func.attr in ('exp', 'sin', 'cos') and name in ('E', 'S', 'C'):
+                    snapshot({'E': 'dsRate', 'S': 'dsFreqS', 'C': 'dsFreqC'}[name], dx.tr(_times_t(val.args[0])))
+                    lets.append((name, 'x.' + name))
+                    dx.bound.append(name)
+                    continue
+                lets.append((name, dx.tr(val)))
+                if name not in dx.bound:
+                    dx.bound.append(name)
+            elif isinstance(st, ast.If):
+                rets = [b for b in st.body if isinstance(b, ast.Return)]
+                test = ast.unparse(st.test)
+                if rets and test.startswith('len(ncoeffs) == '):
+                    do_return(test.split('== ')[1], rets[0])
+                elif rets:
+                    raise Untranslatable('conditional return ' + test)
+                # error / warning guards are modelled by hand (Model/ILT.lean dampedSin) and recorded here
+                elif 'error' in ast.unparse(st.body[0]):
+                    info.setdefault('error_guards', []).append(test)
+                elif 'warn' in ast.unparse(st.body[0]):
+                    pass
+                else:
+                    raise Untranslatable('if ' + test)
+            elif isinstance(st, ast.Return):
+                do_return('3', st)
+            elif isinstance(st, ast.Expr):
+                continue
+            else:
+                raise Untranslatable(ast.unparse(st))
+        need = ['dsRate', 'dsFreqS', 'dsFreqC', 'dsRet1c', 'dsRet1u', 'dsRet2c', 'dsRet2u', 'dsRet3c', 'dsRet3u']
+        missing = [n for n in need if n not in outs]
+        if missing:
+            raise Untranslatable('missing ' + ','.join(missing))
+        if len(dx.sqrt_args) != 2:
+            raise Untranslatable('expected two square roots')
+        info['translated'] = True
+        info['error_guards'] = info.get('error_guards', [])
+    except Untranslatable as e:
+        unparsed.append('do_damped_sin: %s' % e)
+        outs = {}
+    lines.append('/-- inputs of `do_damped_sin`: raw coefficients (highest power first, as `Poly.all_coeffs`), the normalised ones,')
+    lines.append('    the values of the two `sym.sqrt` calls, and the atoms E = exp(.), S = sin(.), C = cos(.), Dl = DiracDelta(t) -/')
+    lines.append('structure DSIn (K : Type) where')
+    lines.append('  (' + ' '.join(DS_FIELDS) + ' : K)')
+    lines.append('section')
+    lines.append('variable {K : Type} [Add K] [Mul K] [Neg K] [Sub K] [Div K] [OfNat K 0] [OfNat K 1]')
+    need = ['dsRate', 'dsFreqS', 'dsFreqC', 'dsRet1c', 'dsRet1u', 'dsRet2c', 'dsRet2u', 'dsRet3c', 'dsRet3u', 'dsSqrtArg1', 'dsSqrtArg2']
+    if info['translated']:
+        # the sqrt arguments are expressions at the point where they occur: find their let prefix
+        for k, a in enumerate(dx.sqrt_args):
+            # prefix = all lets bound before the let whose value mentions x.sq<k+1>
+            idx = next(i for i, (_, v) in enumerate(lets) if 'x.sq%d' % (k + 1) in v)
+            outs['dsSqrtArg%d' % (k + 1)] = (idx, a)
+    for name in need:
+        if name in outs:
+            n, expr = outs[name]
+            body = ''.join('  let %s_ := %s\n' % (nm, v) for nm, v in lets[:n])
+            lines.append('def %s (x : DSIn K) : K :=\n%s  %s' % (name, body, expr))
+        else:
+            lines.append('def %s (_x : DSIn K) : K := 0' % name)
+    lines.append('end')
+    lines.append('def dsNumNormalised : Bool := %s' % ('true' if dx.norm['ncoeffs'] else 'false'))
+    lines.append('def dsDenNormalised : Bool := %s' % ('true' if dx.norm['dcoeffs'] else 'false'))
+    lines.append('def dsTranslated : Bool := %s' % ('true' if info['translated'] else 'false'))
+    return lines, info
+
+
+def q_loop_flags(fdef, unparsed):
+    """the loop of `ratfun` that turns the polynomial quotient into Dirac-delta derivatives:
+         C = Qpoly.all_coeffs()            -> dense (every coefficient, highest power first) / `coeffs()` -> non-zero only
+         ... sym.diff(sym.DiracDelta(t), t, <order>)   <order> = len(C) - n - 1 | Qpoly.degree() - n"""
+    dense = None
+    order = None
+    for node in ast.walk(fdef):
+        if isinstance(node, ast.Assign) and len(node.targets) == 1 and isinstance(node.targets[0], ast.Name) and node.targets[0].id == 'C':
+            src = ast.unparse(node.value)
+            if src == 'Qpoly.all_coeffs()':
+                dense = True
+            elif src == 'Qpoly.coeffs()':
+                dense = False
+        if (isinstance(node, ast.Call) and ast.unparse(node.func) == 'sym.diff' and len(node.args) == 3
+                and ast.unparse(node.args[0]) == 'sym.DiracDelta(t)'):
+            src = ast.unparse(node.args[2])
+            if src == 'len(C) - n - 1':
+                order = 'len'
+            elif src in ('Qpoly.degree() - n',):
+                order = 'degree'
+    ok = dense is not None and order is not None
+    if not ok:
+        unparsed.append('polynomial-part loop of ratfun not recognised')
+    return bool(dense), order == 'len', ok
+
+
+def residue_divisor(repo, unparsed):
+    """`Ratfun._find_residues_sub`, the branch for the lower-order entries of a repeated pole:
+           expr = expr.diff(var)
+           r = expr.subs(var, P[i]) / <divisor>
+       -> Lean term for <divisor> as a function of m = M[i] - O[i] (the number of differentiations so far)"""
+    try:
+        with warnings.catch_warnings():
+            warnings.simplefilter('ignore')
+            tree = ast.parse(open(os.path.join(repo, 'lcapy', 'ratfun.py')).read())
+    except (SyntaxError, OSError) as e:
+        unparsed.append('ratfun.py: %s' % e)
+        return '(0 : K)', False
+    fdef = None
+    for node in ast.walk(tree):
+        if isinstance(node, ast.FunctionDef) and node.name == '_find_residues_sub':
+            fdef = node
+    if fdef is None:
+        unparsed.append('_find_residues_sub not found')
+        return '(0 : K)', False
+
+    def tr(e):
+        src = ast.unparse(e)
+        if src == 'M[i] - O[i]':
+            return '(ofN m)'
+        if isinstance(e, ast.Call) and ast.unparse(e.func) == 'sym.factorial' and len(e.args) == 1 and ast.unparse(e.args[0]) == 'M[i] - O[i]':
+            return '(fact m)'
+        if isinstance(e, ast.Constant) and isinstance(e.value, int) and e.value >= 0:
+            return '(ofN %d)' % e.value
+        if isinstance(e, ast.BinOp) and isinstance(e.op, (ast.Mult, ast.Add)):
+            return '(%s %s %s)' % (tr(e.left), '*' if isinstance(e.op, ast.Mult) else '+', tr(e.right))
+        raise Untranslatable(src)
+    for node in ast.walk(fdef):
+        if isinstance(node, ast.If) and node.orelse:
+            diffs = [st for st in node.orelse if isinstance(st, ast.Assign) and ast.unparse(st.value) == 'expr.diff(var)']
+            rs = [st for st in node.orelse if isinstance(st, ast.Assign) and ast.unparse(st.targets[0]) == 'r']
+            if diffs and rs:
+                v = rs[0].value
+                try:
+                    if isinstance(v, ast.BinOp) and isinstance(v.op, ast.Div) and ast.unparse(v.left) == 'expr.subs(var, P[i])':
+                        return tr(v.right), True
+                    if ast.unparse(v) == 'expr.subs(var, P[i])':
+                        return '(1 : K)', True
+                except Untranslatable as e:
+                    unparsed.append('_find_residues_sub divisor: %s' % e)
+                    return '(0 : K)', False
+    unparsed.append('_find_residues_sub: derivative branch not recognised')
+    return '(0 : K)', False
+
+
 def generate(repo):
     path = os.path.join(repo, 'lcapy', 'inverse_laplace.py')
     src = open(path).read()
     unparsed = []
     flag = False
     found = False
+    cls = None
+    ds_lines, ds_info = [], {'translated': False}
+    q_dense, q_bylen, q_ok = False, False, False
     try:
         with warnings.catch_warnings():
             warnings.simplefilter('ignore')
@@ -109,6 +370,7 @@ def generate(repo):
         fdef = None
         for node in tree.body:
             if isinstance(node, ast.ClassDef) and node.name == 'InverseLaplaceTransformer':
+                cls = node
                 for f in node.body:
                     if isinstance(f, ast.FunctionDef) and f.name == 'ratfun':
                         fdef = f
@@ -126,9 +388,13 @@ def generate(repo):
                                 flag = 'O' in names
             if not found:
                 unparsed.append('conjugate partner filter not recognised')
+            q_dense, q_bylen, q_ok = q_loop_flags(fdef, unparsed)
+        if cls is not None:
+            ds_lines, ds_info = damped_sin_defs(cls, unparsed)
     except SyntaxError as e:
         unparsed.append(str(e))
     key_opts, read_opts, found_key, key_defs, read_defs = option_tables(repo, unparsed)
+    res_div, res_ok = residue_divisor(repo, unparsed)
 
     def plst(xs):
         return '[' + ', '.join('("%s", "%s")' % (a, b.replace('"', "'")) for a, b in xs) + ']'
@@ -138,7 +404,10 @@ def generate(repo):
     text = '\n'.join([
         '/- GENERATED by harness/translate/tx_ilt.py from lcapy/inverse_laplace.py (InverseLaplaceTransformer.ratfun).',
         '   Do not edit: rewritten on every run of the C10 check. -/',
+        'import Lcapy.Spec.Signal',
+        'set_option linter.unusedVariables false',
         'namespace Lcapy.Laplace.Gen',
+        'open Lcapy.Laplace',
         '/-- the conjugate partner of a first-order pole must itself be a first-order entry -/',
         'def conjPartnerMustBeSimple : Bool := %s' % ('true' if flag else 'false'),
         'def conjPartnerFilterTranslated : Bool := %s' % ('true' if found else 'false'),
@@ -150,9 +419,19 @@ def generate(repo):
         'def keyOptionDefaults : List (String × String) := %s' % plst(key_defs),
         'def readOptionDefaults : List (String × String) := %s' % plst(read_defs),
         'def keyTranslated : Bool := %s' % ('true' if found_key else 'false'),
+        '/-- polynomial part of `ratfun`: `C = Qpoly.all_coeffs()` (every coefficient) rather than the non-zero ones only -/',
+        'def qCoeffsDense : Bool := %s' % ('true' if q_dense else 'false'),
+        '/-- order of the delta derivative of the n-th entry: `len(C) - n - 1` (true) or `Qpoly.degree() - n` (false) -/',
+        'def qOrderByLen : Bool := %s' % ('true' if q_bylen else 'false'),
+        'def qLoopTranslated : Bool := %s' % ('true' if q_ok else 'false'),
+        '/-- ratfun.py `_find_residues_sub`: what the m-th derivative (m = M[i] - O[i]) is divided by -/',
+        'def residueDivisor {K : Type} [Add K] [Mul K] [OfNat K 0] [OfNat K 1] (m : Nat) : K := %s' % res_div,
+        'def residueDivisorTranslated : Bool := %s' % ('true' if res_ok else 'false')] + ds_lines + [
         'end Lcapy.Laplace.Gen', ''])
     return text, {'defs': (['conjPartnerMustBeSimple'] if found else []) + (['keyOptions', 'readOptions'] if found_key else []),
-                  'unparsed': unparsed, 'flag': flag, 'keyOptions': key_opts, 'readOptions': read_opts}
+                  'unparsed': unparsed, 'flag': flag, 'keyOptions': key_opts, 'readOptions': read_opts,
+                  'dampedSin': ds_info, 'qLoop': {'dense': q_dense, 'orderByLen': q_bylen, 'translated': q_ok},
+                  'residueDivisor': {'lean': res_div, 'translated': res_ok}}
 
 
 if __name__ == '__main__':
